@@ -20,9 +20,15 @@ def timespan_parse(ctx, rule):
         for cd, nd in thir.calls_in(thir.root(c)):
             if strip_generics(cd).endswith("Duration::from_nanos"):
                 unitless.append(pathx.desc(nd["a"][0]))
-    okm = unitless in (["unitless Mul constparam"], ["constparam Mul unitless"])
-    ctx.require(len(unitful) == 1 and okm, rule, "timespan-parse", "TimeSpan parses `n` as n * MULTIPLIER ns and anything else with humantime", fs_.loc(fs_.line),
+    # `n * MULTIPLIER` wraps around in a release build (and panics in a debug build) for large n: the product has to saturate
+    okm = unitless in (["num::saturating_mul(unitless, constparam)"], ["num::saturating_mul(constparam, unitless)"])
+    plain = unitless in (["unitless Mul constparam"], ["constparam Mul unitless"])
+    ctx.require(len(unitful) == 1 and (okm or plain), rule, "timespan-parse", "TimeSpan parses `n` as n * MULTIPLIER ns and anything else with humantime", fs_.loc(fs_.line),
                 detail="%s / %d" % (unitless, len(unitful)), fail="TimeSpan::from_str no longer computes unit-less values as n * MULTIPLIER nanoseconds (%s)" % unitless)
+    if len(unitful) == 1 and (okm or plain):
+        ctx.require(okm, rule, "timespan-no-wrap", "the product n * MULTIPLIER saturates: a huge unit-less span stays huge", fs_.loc(fs_.line), detail=str(unitless),
+                    fail="TimeSpan::from_str multiplies with the wrapping/panicking `*`: `--stop-timeout 18446744074` becomes a grace period of 0.29 s in a release "
+                         "build (the command is force-killed almost at once) and `--debounce` wraps the same way")
 
 
 
@@ -197,3 +203,11 @@ def run(ctx):
     # ---- R02.8 "urgent flushes": an urgent event must first be collected - the per-iteration classification owned by C01
     ctx.rule("R02.8", "an urgent event is pushed whatever the filter says about it (so that it can flush the pending batch)")
     ctx.borrow("C01", ["R01.1"], "R02.8", "every iteration of the collect loop is classified: urgent and empty events bypass the filter, a filter error only drops filtered events")
+
+    ctx.rule("R02.9", "the window arithmetic cannot panic: no run-time duration is added to an Instant with the panicking operator (the remaining window is "
+                      "computed with saturating_sub on durations; shared with R06.11)")
+    try:
+        from .. import jobrules as _jr
+        _jr.no_panicking_instant_arith(ctx, "R02.9")
+    except Skip:
+        pass
